@@ -320,10 +320,13 @@ def run_zipf(n_cases, seed, work):
     rc2, o2, e2 = sh(['timeout', '120', cppfile + '.exe'])
     if bool(rc1) != bool(rc2):
         return 'only one of the two drivers failed: rc=%d/%d %s' % (rc1, rc2, (o1 + e1)[-200:]), 0
-    if rc1 and rc2:
-        # both the extracted C and the real library stop at an out-of-range access (vector::at/array::at): compare what was printed before
-        o1 = o1.replace('OUT_OF_RANGE\n', '')
     l1, l2 = o1.split('\n'), o2.split('\n')
+    if rc1 and rc2:
+        # both the extracted C and the real library stop at an out-of-range access (vector::at/array::at): compare what was
+        # printed before (the real program dies in terminate() and may lose its last, partially buffered line)
+        l1 = o1.replace('OUT_OF_RANGE\n', '').split('\n')
+        n = max(min(len(l1), len(l2)) - 1, 0)
+        l1, l2 = l1[:n], l2[:n]
     for i, (a, b) in enumerate(zip(l1, l2)):
         if a != b:
             return 'output differs at line %d: extracted "%s" vs real "%s"' % (i + 1, a, b), i
